@@ -167,6 +167,13 @@ def run(chk):
         r3.ob("%s holds %s" % (strip_targs(f["q"]), "a unique lock while replacing the state" if writes else "a lock while copying the state"), ok, f.where, f["q"], "locks: %s" % modes)
     r3.require(8, "obligations")
 
+    # ------------------------------------------------------------------ R15.4
+    r4 = chk.rule("R15.4", "lookup positions cached outside the saved state (per-node hints, the method_missing hint) are used only after the key at that position has been compared with the name",
+                  "after set_state a name resolves to the function of that name, or to nothing - never to whatever now occupies a remembered slot")
+    from .c04 import hinted_find
+    hinted_find(chk, r4, prog)
+    r4.require(1, "hinted returns")
+
 
 def assignment(n):
     """(target expr, source expr) for `a = b` written as built-in assignment or operator= call"""
